@@ -253,6 +253,8 @@ def run_shard(shard, tier):
             with sandbox.time_limit(20):
                 for pname, parent in env["parents"].items():
                     for opts in vectors:
+                        if opts and pname not in ("none", "function", "init", "property"):
+                            continue  # non-default options are exercised on the parents they can interact with
                         ds = g.Docstring(text, lineno=1, parent=parent)
                         value0, lines0 = ds.value, list(ds.lines)
                         try:
@@ -291,7 +293,7 @@ def run_shard(shard, tier):
             outcomes.add("hang")
         acc.case({"style": style, "text": text}, outcome=style + ":" + ("raise" if "raise" in outcomes else "ok"), nontrivial=nontrivial)
         acc.observe(sorted(outcomes))
-        acc.counters["parses"] += len(env["parents"]) * len(vectors)
+        acc.counters["parses"] += len(env["parents"]) + 4 * (len(vectors) - 1)
     if env["mod"].as_json(full=False) != mod_json0:
         acc.violation(f"mutated/parent/{style}", f"{style}: the parent objects' JSON changed while parsing (shard {part})", {"style": style, "shard": part})
     return acc.result()
